@@ -110,6 +110,9 @@ def register(reg):
            ("layer-lens", "all(len(self.node_list[h]) == old(len(self.node_list[h])) + "
                           "(len(parent.children) if h == parent.depth + 1 else 0) for h in range(old(self.depth) + 1))", "C03"),
            ("new-layer", "implies(newlayer, len(self.node_list[self.depth]) == len(parent.children))", "C03"),
+           ("decomp", "all((h <= old(self.depth) and k < old(len(self.node_list[h])) and self.node_list[h][k] is old(self.node_list[h][k])) "
+                      "or (self.node_list[h][k] in parent.children) "
+                      "for h in range(self.depth + 1) for k in range(len(self.node_list[h])))", "C03 C04"),
            ("new-elems", "implies(newlayer, all(self.node_list[parent.depth + 1][j] is parent.children[j] "
                          "for j in range(len(parent.children))))", "C03 C04"),
            ("new-elems-ext", "implies(not newlayer, all(self.node_list[parent.depth + 1][k] is "
